@@ -1313,6 +1313,12 @@ class Interp:
             return Sym(src(node), node)
         g = node.generators[0]
         it = self.ev(g.iter, env, stack)
+        if isinstance(it, Gen) and not g.ifs and isinstance(
+                g.target, ast.Name) and isinstance(node.elt, ast.Name) and \
+                node.elt.id == g.target.id:
+            # [x for x in generator()]: the generator's items as they are
+            self._consume(it, env)
+            return it.seq
         e2 = dict(env)
         self.bind_loop(g.target, it, e2)
         body = self.ev(node.elt, e2, stack)
